@@ -36,6 +36,8 @@ Fixpoint container_decode (fuel : nat) (nxt : N) (b : bytes) : res (list payload
     if supported nxt then
       let* body := sub b 4 (nat_of pl) in
       let* p := payload_unmarshal nxt b0 body in
+      (* RFC 7296 3.14: nothing may follow an Encrypted payload *)
+      if (nxt =? 46) && (nat_of pl <? length b)%nat then Err else
       let* rest := from b (nat_of pl) in
       let* ps := container_decode f b0 rest in
       Ok (p :: ps)
